@@ -23,13 +23,16 @@ type TierParams struct {
 }
 
 type Spec struct {
-	ID           string
-	Title        string
-	Driver       string // package path of the driver, relative to /verif
-	ModFile      string
-	GoBin        string
-	TestBinary   bool
-	GenN         int // C03: programs per generated batch
+	ID         string
+	Title      string
+	Driver     string // package path of the driver, relative to /verif
+	ModFile    string
+	GoBin      string
+	TestBinary bool
+	GenN       int // C03: programs per generated batch
+	// ExtraBuild: an additional binary built with the same overlay: import
+	// path -> environment variable that tells the driver where it is.
+	ExtraBuild   map[string]string
 	Rewrites     []RewriteSpec
 	Flavours     []string
 	Quick        TierParams
@@ -77,9 +80,12 @@ var trImports = map[string]string{
 
 func trRewrites() []RewriteSpec {
 	opt := rewrite.Options{Imports: trImports, Yields: true, FuncEntryOnly: true, GoStmt: true, MapRange: true}
+	mainOpt := opt
+	mainOpt.WrapMain = true
 	return []RewriteSpec{
 		{Dir: "", Opt: opt},
 		{Dir: "internal/coq", Opt: opt},
+		{Dir: "cmd/goose", Opt: mainOpt},
 	}
 }
 
@@ -88,9 +94,10 @@ var specs = map[string]*Spec{
 		ID: "C06", Title: "Translation is deterministic and packages do not influence each other",
 		Driver: "./drivers/c06drv", ModFile: "go.mod",
 		Rewrites: trRewrites(), Flavours: []string{"plain", "race"},
-		Quick:    TierParams{Runs: 1600, RaceRuns: 160, Budget: 6 * time.Minute},
-		Thorough: TierParams{Budget: 20 * time.Minute},
-		Level:    "exploration",
+		ExtraBuild: map[string]string{"github.com/goose-lang/goose/cmd/goose": "VERIF_C06_GOOSE"},
+		Quick:      TierParams{Runs: 1600, RaceRuns: 160, Budget: 6 * time.Minute},
+		Thorough:   TierParams{Budget: 20 * time.Minute},
+		Level:      "exploration",
 		Rule: "each plan is one TranslatePackages invocation: 1-9 package patterns (subset, order and repetition drawn from the seed) out of /repo's 13 example packages or out of a scratch module holding every file of testdata/negative-tests as its own (failing) package plus copies of three example packages, a flag combination (TypeCheck, AddSourceFileComments, SkipInterfaces), a scheduling strategy for the per-package worker goroutines (uniform / sticky / PCT, yield at every function entry of the translator and printer) and a permutation for every map range. " +
 			"Oracle: for every package byte-identical file text and identical error string compared with a golden translation of that package alone on the sequential schedule, in the slot of that package; no panic, no deadlock; in the -race build no race report. " +
 			"Non-trivial: at least two packages were co-translated and their workers were actually interleaved (more context switches than workers); distinct = distinct event-log fingerprints among those.",
